@@ -230,6 +230,10 @@ def do_replay(path):
         body = json.load(fh)
     mod = importlib.import_module(body['module'])
     assert_repo()
+    if body.get('special'):
+        ok = mod.replay_special(body['record'])
+        print('REPRODUCED property=%s' % body['property'] if ok else 'NOT-REPRODUCED property=%s' % body['property'])
+        return EXIT_VIOLATION if ok else EXIT_OK
     r = replay_concrete(mod, body['job'], body['level'], body['values'], body['label'])
     print(json.dumps({k: r.get(k) for k in ('replayed', 'replay_label', 'signature', 'replay_info',
                                             'replay_outcome')}, indent=1, default=str))
@@ -310,6 +314,18 @@ def run_check(modname, tier, seed):
             print('INCONCLUSIVE level=%s truncated=%d unknown=%d errors=%d' % (
                 level['name'], truncated, lv_stats.unknown, len(errors)))
 
+    # ---- optional property-specific extra stage (e.g. C07's hash-seed re-execution)
+    post_report = None
+    post_viol = []
+    post = getattr(mod, 'post_levels', None)
+    if post is not None and os.environ.get('VERIF_SKIP_POST') != '1':
+        post_report = {'errors': [], 'levels': []}
+        t0 = time.time()
+        post_viol = post(tier, seed, post_report) or []
+        post_report['wall_s'] = round(time.time() - t0, 1)
+        for e in post_report['errors']:
+            errors.append({'error': e})
+
     # ---- violations: only what replays on the real code counts
     code = EXIT_OK
     confirmed, unconfirmed, known_hits = [], [], {}
@@ -345,6 +361,23 @@ def run_check(modname, tier, seed):
             code = EXIT_VIOLATION
         else:
             unconfirmed.append(rec)
+    for pv in post_viol[:3]:
+        body = {'property': pid, 'module': modname, 'special': True, 'record': pv}
+        rdir = os.environ.get('VERIF_REPLAY_DIR') or os.path.join(ROOT, 'replays')
+        os.makedirs(rdir, exist_ok=True)
+        digest = hashlib.sha256(json.dumps(body, sort_keys=True, default=str).encode()).hexdigest()[:12]
+        path = os.path.join(rdir, '%s-%s.json' % (pid, digest))
+        with open(path, 'w') as fh:
+            json.dump(body, fh, indent=1, default=str)
+        ok, out = subprocess_replay(path)
+        if ok:
+            print('VIOLATION property=%s replay=%s' % (pid, path))
+            print('  label=%s info=%s' % (pv.get('label'), json.dumps(pv, default=str)[:600]))
+            violations_reported += 1
+            code = EXIT_VIOLATION
+        else:
+            unconfirmed.append({'label': pv.get('label'), 'replay_outcome': out[-300:], 'job': None,
+                                'values': None, 'info': pv})
     if unconfirmed and code == EXIT_OK:
         rec = unconfirmed[0]
         print('HARNESS-ERROR %d solver models did not replay on the real code (encoding wrong?) '
@@ -402,6 +435,7 @@ def run_check(modname, tier, seed):
             'solver': 'z3 %s' % (symex.z3.get_version_string() if symex.z3 else '?'),
             'unknown_labels': unknown_labels[:10],
             'procs': nproc,
+            'post_stage': post_report,
         },
         'assumptions': getattr(mod, 'ASSUMPTIONS', []),
         'wall_s': round(wall, 2),
